@@ -158,9 +158,11 @@ def check_reset_discipline(ctx, facts, cfg, R_drop, R_recv, R_full):
         if full is None:
             ctx.violation(R_full, 'no-full-reset', 'cannot find the explicit reset method of %s reached from %s::reset' % (work_adt, tr), fn=work_adt, cfg=cfg)
             continue
-        ws = write_sites(facts, full)
-        fb = facts.fns[full].body
-        pnames = facts.fns[full].param_names()
+        # phases of the reset extracted into private helpers of the same object are analysed in place
+        full_fn = core.inlined_fn(facts, full, core.self_helper(work_adt))
+        ws = write_sites(facts, full_fn.path)
+        fb = full_fn.body
+        pnames = full_fn.param_names()
         for fld in fields:
             ty = ftypes[fld]
             verdict = None
